@@ -57,3 +57,34 @@ pub unsafe fn checked_from_utf8_unchecked(v: &[u8]) -> &str {
     }
     core::mem::transmute(v)
 }
+
+/// Wrapping lane-wise models of the x86 integer add / sub / multiply intrinsics (Intel SDM:
+/// PADDD, PSUBD, PMULLD, PADDW and their 256-bit forms are modular arithmetic per lane).
+/// Kani evaluates stdarch's `simd_add/sub/mul` with an overflow check followed by an ASSUME,
+/// which silently removes every input on which a lane wraps from the proof; with these models
+/// in place of the intrinsics no input is excluded.
+#[cfg(target_arch = "x86_64")]
+pub mod x86 {
+    use core::arch::x86_64::*;
+    macro_rules! lanewise {
+        ($name:ident, $v:ty, $lane:ty, $n:literal, $op:ident) => {
+            pub fn $name(a: $v, b: $v) -> $v {
+                unsafe {
+                    let a: [$lane; $n] = core::mem::transmute(a);
+                    let b: [$lane; $n] = core::mem::transmute(b);
+                    let mut r = [0 as $lane; $n];
+                    let mut i = 0;
+                    while i < $n { r[i] = a[i].$op(b[i]); i += 1; }
+                    core::mem::transmute(r)
+                }
+            }
+        };
+    }
+    lanewise!(mm_add_epi32, __m128i, u32, 4, wrapping_add);
+    lanewise!(mm_sub_epi32, __m128i, u32, 4, wrapping_sub);
+    lanewise!(mm_mullo_epi32, __m128i, u32, 4, wrapping_mul);
+    lanewise!(mm_add_epi16, __m128i, u16, 8, wrapping_add);
+    lanewise!(mm256_add_epi32, __m256i, u32, 8, wrapping_add);
+    lanewise!(mm256_sub_epi32, __m256i, u32, 8, wrapping_sub);
+    lanewise!(mm256_mullo_epi32, __m256i, u32, 8, wrapping_mul);
+}
